@@ -88,7 +88,7 @@ EXPORT int fwprintf_s(FILE *restrict stream, const wchar_t *restrict fmt, ...) {
     }
 
 #if defined(HAVE_WCSSTR) || !defined(SAFECLIB_DISABLE_EXTENSIONS)
-    if (unlikely((p = safec_find_percent_wn(fmt)))) {
+    if (unlikely((p = safec_find_percent_wn_printf(fmt)))) {
         { /* any n conversion, whatever flags, width or length modifier */
             invoke_safe_str_constraint_handler("fwprintf_s: illegal %n", NULL,
                                                EINVAL);
